@@ -319,6 +319,16 @@ def schema_source_rule(ctx):
     # ---------------- R12: allOf composition of object schemas
     ctx.rule("C06.R12", "an object schema placed in an `allOf` next to other object schemas is open (additionalProperties not false): each member only sees its own properties, closure is the job of unevaluatedProperties", floor=2)
     allof_composition_rule(ctx, "C06.R12")
+    # ---------------- R13: constraints of properties(...) fields
+    ctx.rule("C06.R13", "the object schema of a pattern / additional-properties field contributes all its keywords to the parent (size bounds, key constraints), not only its value sub-schema", floor=1)
+    ps = model.func(f"{SBB}._properties_schema")
+    obj_ = model.func(f"{SBB}.object")
+    returned = [norm(r.value) for r in ast.walk(ps.node) if isinstance(r, ast.Return) and r.value is not None]
+    only_values = all(("[" in r and ("patternProperties" in r or "additionalProperties" in r)) or r == "JsonSchema()" or r.startswith("next(iter(") for r in returned)
+    carried = any(k in norm(obj_.node) or k in norm(ps.node) for k in ("minProperties", "maxProperties", "propertyNames"))
+    ctx.check(not only_values or carried, "C06.R13", f"{ps.qualname}:dropped-keywords", None,
+              "a field declared with properties / properties(pattern) is reduced to the value sub-schema of its Mapping schema: `minProperties` / `maxProperties` set on the field, and the key constraints of its Mapping key type, disappear from the parent's schema while deserialize enforces them on the captured properties",
+              ps, ps.node, detail="size bounds and key constraints propagated")
     # ---------------- R9: mapping keys
     ctx.rule("C06.R9", "Mapping schema: every keyword of the key's schema is enforced on property names (the deserializer validates each key with the key type's method)", floor=2)
     mp = model.func(f"{SBB}.mapping")
